@@ -228,14 +228,32 @@ INTERVAL_KINDS = ["pos", "neg", "straddle", "touch0-right", "touch0-left", "righ
 mp.mp.dps = 25
 
 
+def sing_quad(f, c, k=24):
+    """int_0^c f(x) dx for an integrand with an integrable algebraic singularity at 0 (|x|^-p, p < 1 - 2/k): the substitution
+    x = t^k makes it smooth, so tanh-sinh keeps its accuracy (c may be negative: integrates over [c, 0] then)"""
+    sgn = 1 if c > 0 else -1
+    top = mp.mpf(abs(c)) ** (mp.mpf(1) / k)
+    g = lambda t: f(sgn * t ** k) * k * t ** (k - 1)
+    return mp.quad(g, [0, top / 2, top])
+
+
 def quad_xn_nu(nu, a, b, n, extra=()):
-    """mpmath quadrature of x^n * nu(x) over [a,b] using the implementation's own __call__ (split at 0, +-1 and `extra`)"""
+    """mpmath quadrature of x^n * nu(x) over [a,b] using the implementation's own __call__ (split at 0, +-1 and `extra`;
+    the two pieces adjacent to 0 are integrated after the substitution x = +-t^24: VG / CGMY densities are singular there)"""
     if a == b:
         return 0.0
     pts = sorted({p for p in (0.0, -1.0, 1.0, -8.0, 8.0) + tuple(extra) if a < p < b})
     pts = [a] + pts + [b]
-    f = lambda x: (x ** n) * mp.mpf(float(nu(float(x))))
-    return float(mp.quad(f, [mp.mpf(p) if abs(p) != INF else (mp.inf if p > 0 else -mp.inf) for p in pts]))
+    f = lambda x: (x ** n) * mp.mpf(float(nu(float(x)))) if abs(x) > mp.mpf("1e-100") else mp.mpf(0)
+    tot = mp.mpf(0)
+    for u, v in zip(pts[:-1], pts[1:]):
+        if u == 0 and abs(v) != INF:
+            tot += sing_quad(f, v)
+        elif v == 0 and abs(u) != INF:
+            tot += sing_quad(f, u)
+        else:
+            tot += mp.quad(f, [mp.mpf(p) if abs(p) != INF else (mp.inf if p > 0 else -mp.inf) for p in (u, v)])
+    return float(tot)
 
 
 def call_integral(nu, a, b, n, via):
